@@ -8,6 +8,7 @@ package main
 import (
 	"fmt"
 	"math"
+	"reflect"
 	"sort"
 	"strings"
 
@@ -278,7 +279,9 @@ func paramsSame(a, b paramView) bool {
 
 func checkCoherence(method string, e *biasEvent, st *eventStats) []issue {
 	var is []issue
-	add := func(sig, msg string) { is = append(is, issue{"C07", sig, fmt.Sprintf("bias #%d %s: %s", e.Pos, e.Name, msg)}) }
+	add := func(sig, msg string) {
+		is = append(is, issue{"C07", sig, fmt.Sprintf("bias #%d %s: %s", e.Pos, e.Name, msg)})
+	}
 	in, out := &e.In, &e.Out
 	// alternatives and their split never change
 	if fmt.Sprint(idsOfAlts(in.Cons)) != fmt.Sprint(idsOfAlts(out.Cons)) {
@@ -524,7 +527,9 @@ func frontOfOrdering(e *biasEvent, selected []string) string {
 
 func checkOmission(method string, e *biasEvent, st *eventStats) []issue {
 	var is []issue
-	add := func(sig, msg string) { is = append(is, issue{"C15", sig, fmt.Sprintf("bias #%d criteriaOmission: %s", e.Pos, msg)}) }
+	add := func(sig, msg string) {
+		is = append(is, issue{"C15", sig, fmt.Sprintf("bias #%d criteriaOmission: %s", e.Pos, msg)})
+	}
 	in, out := &e.In, &e.Out
 	n := len(in.Crit)
 	k, fragile := splitCount(n, e.Props)
@@ -634,7 +639,9 @@ func checkOmission(method string, e *biasEvent, st *eventStats) []issue {
 
 func checkReversal(method string, e *biasEvent, st *eventStats) []issue {
 	var is []issue
-	add := func(sig, msg string) { is = append(is, issue{"C16", sig, fmt.Sprintf("bias #%d preferenceReversal: %s", e.Pos, msg)}) }
+	add := func(sig, msg string) {
+		is = append(is, issue{"C16", sig, fmt.Sprintf("bias #%d preferenceReversal: %s", e.Pos, msg)})
+	}
 	in, out := &e.In, &e.Out
 	n := len(in.Crit)
 	k, fragile := splitCount(n, e.Props)
@@ -768,7 +775,9 @@ func fatigueRatio(props M) (f float64, tol float64, ok bool) {
 
 func checkFatigue(method string, e *biasEvent, st *eventStats) []issue {
 	var is []issue
-	add := func(sig, msg string) { is = append(is, issue{"C17", sig, fmt.Sprintf("bias #%d fatigue: %s", e.Pos, msg)}) }
+	add := func(sig, msg string) {
+		is = append(is, issue{"C17", sig, fmt.Sprintf("bias #%d fatigue: %s", e.Pos, msg)})
+	}
 	in, out := &e.In, &e.Out
 	f, ftol, ok := fatigueRatio(e.Props)
 	if !ok {
@@ -1372,7 +1381,9 @@ func anchoringFn(f M, d float64) (float64, bool) {
 
 func checkAnchoring(method string, e *biasEvent, st *eventStats) []issue {
 	var is []issue
-	add := func(sig, msg string) { is = append(is, issue{"C19", sig, fmt.Sprintf("bias #%d anchoring: %s", e.Pos, msg)}) }
+	add := func(sig, msg string) {
+		is = append(is, issue{"C19", sig, fmt.Sprintf("bias #%d anchoring: %s", e.Pos, msg)})
+	}
 	in, out := &e.In, &e.Out
 	props := e.Props
 	aas, _ := props["anchoringAlternatives"].([]interface{})
@@ -1667,6 +1678,19 @@ func checkTrace(method string, tr *trace, st *eventStats) []issue {
 	for _, e := range tr.Bias {
 		st.add("bias_events", 1)
 		st.add("events:"+e.Name, 1)
+		if e.Name == "criteriaMixing" && e.NilReport && !e.SameDMP && len(e.In.Crit) < 2 {
+			// below two criteria mixing does nothing: whatever object it returns carries the data and parameters it received
+			diff := snapEqualData(&e.In, &e.Out)
+			if diff == "" && !reflect.DeepEqual(e.In.Params, e.Out.Params) {
+				diff = "method parameters differ"
+			}
+			if diff != "" {
+				is = append(is, issue{"C18", "mixing-noop-changed-state", fmt.Sprintf("bias #%d criteriaMixing (fewer than two criteria) reports nothing but hands on other data than it received: %s", e.Pos, diff)})
+			} else {
+				st.add("mixing_noop_events", 1)
+			}
+			continue
+		}
 		if e.Name == "criteriaMixing" && e.NilReport && e.SameDMP {
 			// mixing below two criteria hands its input on unchanged
 			if len(e.In.Crit) >= 2 {
